@@ -8,6 +8,9 @@ TB = ("Trusted: Lean 4.33.0 kernel; axioms propext/Quot.sound/Classical.choice o
       "working tree on every run (differential, exhaustive on the small axes, sampled elsewhere); Go stdlib semantics written into the model.")
 
 CLAIMS = {
+ "C06": dict(
+   text="Lean theorems (Properties/C06.lean): split_ok - whenever the model of split() returns requests, the fields of all requests are a permutation of the requested-kind fields (every field exactly once, none of the other kind), and every request has a field, targets its fields' server and unit, contains every field's span in [start,start+q) over N, is tight at both ends, has 1<=q<=125/2000, and its packet is the read request of the target function for (unit,start,q) (bytes by C01); never_split - a group whose slots all end within the limit of its lowest address becomes exactly one batch; groups_partition - groups have pairwise different (server,unit,kind) keys. Proved by an invariant over the greedy fold on the sorted slot list, for every field list (no bound on length). Tie to the code: 40k (thorough 1.5M) field lists: all 14 types, clusters, gaps at limit-1/limit/limit+1, overlaps, duplicates, fields at both ends of the address space, several servers/units, invalid definitions, all 8 targets; the nine clauses are also checked directly on the implementation's output.",
+   ref="DESIGN.md §3 C06", technique="Lean 4 proof (loop invariant by induction over the sorted slot list, permutation arguments) + differential correspondence check"),
  "C04": dict(
    text="Lean theorem C04 (Properties/C04.lean): for every payload of n>=1 registers, every content of the slice's spare capacity, every start address with start+n <= 65536 (windows ending at 65535 included), every one of the 23 accessors, every byte/word order and every requested address 0..65535, the model accessor returns exactly Spec.access: the decoding of the wire bytes of the addressed registers when they all lie in the window, an error otherwise - hence no panic and no dependence on bytes outside the payload. (The unrepaired uint16 window arithmetic violated this; repaired in 03e4f05.) Tie to the code: window sizes 1..125 x window positions at 0 / ending at 65536 / around 32768 x addresses across both edges and start+-32768 x all accessors x 9 orders x string lengths 1..255, exact and poisoned capacity.",
    ref="DESIGN.md §3 C04", technique="Lean 4 proof (window arithmetic over Nat vs uint16, per-accessor decoding lemmas) + differential correspondence check"),
